@@ -173,6 +173,10 @@ fn child_observe(t: &Target, optimize: bool, workdir: &str, tag: &str) -> Option
 pub fn child_main(cfg: &Cfg) -> i32 {
     let text = std::fs::read_to_string(&cfg.rest[0]).expect("read");
     let dirs: Vec<String> = cfg.rest.iter().skip(3).cloned().collect();
+    if let Some(c) = std::env::var("VH_C05_CTR").ok().and_then(|x| x.parse::<usize>().ok()) {
+        // start this fresh process from a different value of the fresh-name counter
+        ARGNAME_CTR.store(c, Ordering::SeqCst);
+    }
     let o = observe(&text, &cfg.rest[1], &dirs, cfg.rest[2] == "1");
     let j = match &o.result {
         Ok(h) => json!({"hex": h, "symbols": o.symbols}),
